@@ -113,6 +113,15 @@ where
 
 /// Modular inversion for 64-bit moduli.
 pub fn inv_mod64(n: u64, p: u64) -> Option<u64> {
+    if (n | p) >> 63 != 0 {
+        // Operands do not fit in i64: use wider arithmetic.
+        let e = Integer::extended_gcd(&(n as i128), &(p as i128));
+        return if e.gcd == 1 {
+            Some(e.x.rem_euclid(p as i128) as u64)
+        } else {
+            None
+        };
+    }
     let e = Integer::extended_gcd(&(n as i64), &(p as i64));
     if e.gcd == 1 {
         let x = if e.x < 0 { e.x + p as i64 } else { e.x };
